@@ -1,6 +1,6 @@
 (* C11 - segwit addresses (bech32/bech32m) round-trip and are validated, per network.  Statements only. *)
 From Coq Require Import ZArith String List.
-From BU Require Import Lib.Bytes Gen.Tables Model.Bech32 Model.Address Proofs.Bech32Facts Proofs.KeysFacts.
+From BU Require Import Lib.Bytes Gen.Tables Model.Bech32 Model.Address Proofs.Bech32Facts Proofs.Bech32Distance Proofs.KeysFacts.
 Import ListNotations.
 Open Scope list_scope.
 Open Scope Z_scope.
@@ -21,6 +21,25 @@ Theorem C11_checksum_verifies : forall hrp data spec, Forall (fun c => 0 <= c < 
   verify_checksum hrp (data ++ create_checksum hrp data spec) = Some spec.
 Proof. exact checksum_verifies. Qed.
 Print Assumptions C11_checksum_verifies.
+
+(* error detection: a data part of up to 89 symbols (checksum included) in which 1..4 symbols are substituted
+   never verifies as the variant the original verified as -- for every prefix, every data part and every choice
+   of positions and symbols (BIP173's design claim; the reduction to a finite check is proved, the check is one
+   closed kernel computation over 85,529 + 2848 syndromes).  The window is tight: at 90 symbols a weight-4
+   codeword exists.  (A substitution that also changes the witness version can land on a valid string of the
+   OTHER variant: that is a property of BIP350, not of this code, and is outside the statement.) *)
+Theorem C11_detects_4_substitutions : forall hrp data data' spec,
+  Forall (fun c => 0 <= c < 256) hrp -> sym5 data -> sym5 data' ->
+  length data = length data' -> (length data <= 89)%nat ->
+  (1 <= hamming data data' <= 4)%nat ->
+  verify_checksum hrp data = Some spec -> verify_checksum hrp data' <> Some spec.
+Proof. exact checksum_detects_4. Qed.
+Print Assumptions C11_detects_4_substitutions.
+Theorem C11_distance_tight : exists data data', sym5 data /\ sym5 data' /\
+  length data = 90%nat /\ length data' = 90%nat /\ hamming data data' = 4%nat /\
+  verify_checksum [97] data = Some BECH32 /\ verify_checksum [97] data' = Some BECH32.
+Proof. exact checksum_distance_tight. Qed.
+Print Assumptions C11_distance_tight.
 
 (* decoding an encoded string returns HRP, data and variant *)
 Theorem C11_decode_encode : forall hrp data spec, hrp_ok hrp -> sym5 data -> (length hrp + 1 + length data + 6 <= 90)%nat ->
